@@ -95,6 +95,70 @@ def check_fit(case):
     return res
 
 
+# ------------------------------------------------------------------ fit: special geometries (exhaustive)
+_SPECIAL_SETS = {
+    "isosceles": [[-1, 0, 0], [1, 0, 0], [0, 2, 0]],
+    "right-triangle": [[0, 0, 0], [1.5, 0, 0], [0, 2, 0]],
+    "rhombus": [[-2, 0, 0], [2, 0, 0], [0, 1, 0], [0, -1, 0]],
+    "axis-cross": [[1, 0, 0], [-1, 0, 0], [0, 1.5, 0], [0, -1.5, 0], [0, 0, 2], [0, 0, -2]],
+    "square": [[1, 1, 0], [-1, 1, 0], [-1, -1, 0], [1, -1, 0]],
+    "tetrahedron": [[1, 1, 1], [1, -1, -1], [-1, 1, -1], [-1, -1, 1]],
+    "scalene-3d": [[0, 0, 0], [1.25, 0, 0], [0.5, 1.75, 0], [0.25, 0.5, 1.5]],
+}
+_SPECIAL_ROTS = {
+    "identity": [[1, 0, 0], [0, 1, 0], [0, 0, 1]],
+    "half-x": [[1, 0, 0], [0, -1, 0], [0, 0, -1]],
+    "half-y": [[-1, 0, 0], [0, 1, 0], [0, 0, -1]],
+    "half-z": [[-1, 0, 0], [0, -1, 0], [0, 0, 1]],
+    "quarter-x": [[1, 0, 0], [0, 0, -1], [0, 1, 0]],
+    "quarter-y": [[0, 0, 1], [0, 1, 0], [-1, 0, 0]],
+    "quarter-z": [[0, -1, 0], [1, 0, 0], [0, 0, 1]],
+    "third-111": [[0, 0, 1], [1, 0, 0], [0, 1, 0]],
+    "half-110": [[0, 1, 0], [1, 0, 0], [0, 0, -1]],
+}
+
+
+def special_fit_cases():
+    """Symmetric, axis-aligned reference sets x exact special rotations (identity, half / quarter
+    turns, 120 deg about the body diagonal) x translations x offsets of the reference set: the
+    configurations in which the quaternion eigenproblem is degenerate or already diagonal."""
+    out = []
+    for sname in _SPECIAL_SETS:
+        for rname in _SPECIAL_ROTS:
+            for t in ([0.0, 0.0, 0.0], [1.0, 2.0, 3.0], [10.5, -3.25, 7.0]):
+                for off in ([0.0, 0.0, 0.0], [4.0, -2.0, 0.5]):
+                    for probe in ([0.5, 0.25, 1.0], [0.0, 0.0, 1.5]):
+                        out.append(dict(part="fit-special", pts=sname, rot=rname, t=t, off=off, probe=probe))
+    return out
+
+
+def check_fit_special(case):
+    from pdb2pqr import quatfit
+
+    res = Result()
+    P = np.array(_SPECIAL_SETS[case["pts"]], float) + np.array(case["off"])
+    R = np.array(_SPECIAL_ROTS[case["rot"]], float)
+    t = np.array(case["t"])
+    probe = np.array(case["probe"]) + np.array(case["off"])
+    Q = (R @ P.T).T + t
+    got = np.array(quatfit.find_coordinates(len(P), Q.tolist(), P.tolist(), probe.tolist()))
+    exp = R @ probe + t
+    err = float(np.linalg.norm(got - exp))
+    planar = np.linalg.matrix_rank(P - P.mean(0), tol=1e-6) < 3
+    if err > 1e-6:
+        ok_mirror = False
+        if planar:
+            # for a planar reference set the mirror image through its plane is an equally exact fit only
+            # if the probe lies IN the plane; off-plane probes must keep their hand
+            n_ = np.cross(Q[1] - Q[0], Q[2] - Q[0])
+            ok_mirror = abs(float(np.dot(exp - Q[0], n_))) < 1e-9
+        if not ok_mirror:
+            res.bad("C15:fit-special:placement", f"{case['pts']} under {case['rot']} + t={case['t']}: placed atom off by {err:.4g} A")
+    res.nontrivial = True
+    res.label(f"set={case['pts']}", f"rot={case['rot']}", "planar" if planar else "nonplanar")
+    return res
+
+
 # ------------------------------------------------------------------ chi
 @st.composite
 def chi_case(draw):
@@ -292,6 +356,7 @@ def check_tetra(case):
 def parts(tier):
     return [
         Part("fit", check_fit, strategy=fit_case(), budget=dict(quick=12000, thorough=120000)),
+        Part("fit-special", check_fit_special, cases=special_fit_cases, exhaustive=True),
         Part("chi", check_chi, strategy=chi_case(), budget=dict(quick=8000, thorough=60000)),
         Part("dihedral", check_dihedral, strategy=dihedral_case(), budget=dict(quick=8000, thorough=60000)),
         Part("torsion", check_torsion, strategy=torsion_case(), budget=dict(quick=800, thorough=8000)),
